@@ -175,7 +175,17 @@ func c11Shapes(thorough bool) map[string][]sstEntry {
 	}
 	if thorough {
 		// an index block beyond the same count: 1100 one-entry blocks (64 KiB values)
-		shapes["blocks1100"] = mk(1100, func(i int) bool { return i%97 == 5 }, func(i int) []byte { return bytes.Repeat([]byte{byte('A' + i%26)}, 64*1024) })
+		var es []sstEntry
+		for i := 0; i < 1100; i++ {
+			e := sstEntry{Key: dkey(i), Seq: uint64(i%4 + 1)}
+			if i%97 == 5 {
+				e.Tomb = true
+			} else {
+				e.Val = bytes.Repeat([]byte{byte('A' + i%26)}, 64*1024)
+			}
+			es = append(es, e)
+		}
+		shapes["blocks1100"] = es
 	}
 	if thorough {
 		shapes["blocks5-mixed"] = mk(40, func(i int) bool { return i%7 == 3 }, func(i int) []byte {
